@@ -23,7 +23,7 @@ CHECKS = {
             "DESIGN.md 4/C03"),
     "C04": ("exploration",
             "proptest histories with immediate observation after the terminal call (files, committing custom writer, child process ending with _exit)",
-            "Generated histories of writes, flushes, rotations, clone-and-drop of the handle and sleeps in every write mode and output, ended by shutdown(), drop of the last handle or flush(); the output is read immediately after the call returned (the child process _exits) and must hold exactly the records whose log calls had returned, also those logged after a clone of the handle was dropped. Search, not proof; found the clone-drop defect that was repaired. Later additions: two shutdown() calls in flight at once (observation after the first that returns), the last two handle clones dropped concurrently by two threads (60 repetitions per case), loggers built with a specification file (watcher build). Round-5 additions: a second thread that logs while shutdown() runs (records acknowledged before the call), a healthy writer beside a log file on /dev/full (every flush of the file fails).",
+            "Generated histories of writes, flushes, rotations, clone-and-drop of the handle and sleeps in every write mode and output, ended by shutdown(), drop of the last handle or flush(); the output is read immediately after the call returned (the child process _exits) and must hold exactly the records whose log calls had returned, also those logged after a clone of the handle was dropped. Search, not proof; found the clone-drop defect that was repaired. Later additions: two shutdown() calls in flight at once (observation after the first that returns), the last two handle clones dropped concurrently by two threads (60 repetitions per case), loggers built with a specification file (watcher build). Round-5 additions: a second thread that logs while shutdown() runs (records acknowledged before the call), a healthy writer beside a log file on /dev/full (every flush of the file fails). Round 6: a FileLogWriter registered with add_writer (bare shutdown() from the handle) as an output.",
             "timing of flusher/writer threads is sampled, not controlled",
             "DESIGN.md 4/C04"),
     "C05": ("exploration",
@@ -88,12 +88,12 @@ CHECKS = {
             "DESIGN.md 4/C14"),
     "C08": ("exploration",
             "proptest histories + reference partition model (model-based testing)",
-            "Generated size limits, record-length sequences at the limit boundaries, all write modes incl. async, all namings, append restarts; the ordered list of file contents must equal the partition predicted by an independent model (rotate iff size before the write > N, size seeded from the appended file), plus the corollary 'no record appended to a file already above N' checked directly on the files. Search over thousands of cases, no proof. Later additions: records whose own write fails (sync and async modes; the model takes the rotation decision and adds no bytes), external move of the current file + reopen_output(). Round-5 additions: plain reopen_output() and reset_flw() onto the writer's own configuration inside the histories (no flush before them).",
+            "Generated size limits, record-length sequences at the limit boundaries, all write modes incl. async, all namings, append restarts; the ordered list of file contents must equal the partition predicted by an independent model (rotate iff size before the write > N, size seeded from the appended file), plus the corollary 'no record appended to a file already above N' checked directly on the files. Search over thousands of cases, no proof. Later additions: records whose own write fails (sync and async modes; the model takes the rotation decision and adds no bytes), external move of the current file + reopen_output(). Round-5 additions: plain reopen_output() and reset_flw() onto the writer's own configuration inside the histories (no flush before them). Round 6: external move + re-creation of an empty file + reopen_output().",
             "trusts the reference partition model (src/model.rs, written from the documentation), the name grammar, tmpfs; restarts of direct-timestamp namings avoided (listed finding under C06) and counted",
             "DESIGN.md 4/C08"),
     "C09": ("exploration",
             "proptest histories under a virtual clock + reference partition model (model-based testing)",
-            "Virtual-clock histories with structured instants and advance steps straddling second/minute/hour/day/month/year boundaries, in 6 DST-free time zones; file partition must equal the model (rotate iff local period differs from the period in which the current file was started) and timestamp infixes must equal the instant the content was started. Search, not proof. Later additions: failing writes and external move + reopen_output() as for C08; three real-time cases per run (real clock and real file metadata, Age::Second, 2.3 s tight logging loop; oracle: not more files than seconds seen, no file spanning two seconds). Round-5 additions: plain reopen_output() and reset_flw() onto the same configuration inside the histories; real-time cases that start a logger (and let reopen_output() create a file) right after a second boundary of the wall clock.",
+            "Virtual-clock histories with structured instants and advance steps straddling second/minute/hour/day/month/year boundaries, in 6 DST-free time zones; file partition must equal the model (rotate iff local period differs from the period in which the current file was started) and timestamp infixes must equal the instant the content was started. Search, not proof. Later additions: failing writes and external move + reopen_output() as for C08; three real-time cases per run (real clock and real file metadata, Age::Second, 2.3 s tight logging loop; oracle: not more files than seconds seen, no file spanning two seconds). Round-5 additions: plain reopen_output() and reset_flw() onto the same configuration inside the histories; real-time cases that start a logger (and let reopen_output() create a file) right after a second boundary of the wall clock. Round 6: external move + re-creation of an empty file + reopen_output().",
             "trusts the verif_hooks clock redirection (every Local::now() of the file writer and the creation-time lookup), chrono's time-zone conversion, the reference model; async mode and direct-timestamp restarts excluded as stated in the evidence",
             "DESIGN.md 4/C09"),
     "C13": ("exploration",
@@ -103,7 +103,7 @@ CHECKS = {
             "DESIGN.md 4/C13"),
     "C15": ("exploration",
             "differential testing across write modes (proptest) + enumerated single-byte chunks",
-            "The same generated record or raw-chunk sequence is run under Direct, buffered and async modes; ordered file contents must agree with the Direct run and with the partition model, chunk concatenation must equal the input; all 256 single-byte chunk values are enumerated. Search, not proof. Later additions: the list of all files including empty ones is compared with the Direct run; short counts from io::Write::write are followed up as write_all does; a pause after every flush in async modes. Round-5 additions: reopen_output() as an item of the sequences.",
+            "The same generated record or raw-chunk sequence is run under Direct, buffered and async modes; ordered file contents must agree with the Direct run and with the partition model, chunk concatenation must equal the input; all 256 single-byte chunk values are enumerated. Search, not proof. Later additions: the list of all files including empty ones is compared with the Direct run; short counts from io::Write::write are followed up as write_all does; a pause after every flush in async modes. Round-5 additions: reopen_output() as an item of the sequences. Round 6: records whose format function reports an error after writing the text.",
             "trusts the Direct mode only as the differential reference (also compared with the model)",
             "DESIGN.md 4/C15"),
 }
